@@ -77,6 +77,9 @@ func (e *Engine) callFunction(st *State, fr *Frame, callee *ssa.Function, bindin
 	inRepo := callee.Blocks != nil && (e.isRepoFunc(callee))
 	if inRepo {
 		ct := e.contractFor(callee)
+		if ct != nil && !ct.Inline && ct.Iter != nil && e.modelIterate(st, fr, callee, ct, args, pos, ins) {
+			return
+		}
 		if ct != nil && !ct.Inline && !(len(st.frames) == 1 && false) {
 			res := e.callByContract(st, fr, callee, ct, args, bindings, resT, pos, ins)
 			setRes(res)
@@ -116,6 +119,9 @@ func (e *Engine) callFunction(st *State, fr *Frame, callee *ssa.Function, bindin
 }
 
 func (e *Engine) newFrame(fn *ssa.Function) *Frame {
+	if ct := e.contractFor(fn); ct != nil {
+		e.execContracts[ct] = true
+	}
 	return &Frame{fn: fn, regs: map[ssa.Value]Val{}, locals: map[*ssa.Alloc]Val{}, block: fn.Blocks[0], loopSeen: map[*ssa.BasicBlock]*loopCtx{}}
 }
 
@@ -751,6 +757,7 @@ func (e *Engine) callbackResult(st *State, fr *Frame, c *ssa.CallCommon, res Val
 		}
 		env := e.eventEnv(st, fr, ev, args)
 		env.vars["result"] = res
+		ev.Fired++
 		for _, r := range ev.Results {
 			e.assumptions["callback result assumed in "+funcDisplayName(fr.fn)+": "+target+" returns "+r.Text] = true
 			st.assume(env.evalBool(r.Expr))
